@@ -343,7 +343,7 @@ func (w *c15World) snapshot() string {
 			ch = append(ch, c)
 		}
 		sort.Strings(ch)
-		fmt.Fprintf(&b, "H %s=[%s] nil=%v\n", k, strings.Join(ch, ","), qt.quotaHierarchyInfo[k] == nil)
+		fmt.Fprintf(&b, "H %s=[%s]\n", k, strings.Join(ch, ","))
 	}
 	keys = keys[:0]
 	for k := range qt.namespaceToQuotaMap {
@@ -769,7 +769,7 @@ func (w *c15World) depth() int {
 func c15Gates(t *testing.T) func() {
 	// the statement is about the default configuration; pin the gates the checks consult
 	var undo []func()
-	undo = append(undo,utilfeature.SetFeatureGateDuringTest(t, utilfeature.DefaultMutableFeatureGate, koordfeatures.ElasticQuotaEnableUpdateResourceKey, false))
+	undo = append(undo, utilfeature.SetFeatureGateDuringTest(t, utilfeature.DefaultMutableFeatureGate, koordfeatures.ElasticQuotaEnableUpdateResourceKey, false))
 	undo = append(undo, utilfeature.SetFeatureGateDuringTest(t, utilfeature.DefaultMutableFeatureGate, koordfeatures.ElasticQuotaGuaranteeUsage, false))
 	undo = append(undo, utilfeature.SetFeatureGateDuringTest(t, utilfeature.DefaultMutableFeatureGate, koordfeatures.SupportParentQuotaSubmitPod, false))
 	undo = append(undo, utilfeature.SetFeatureGateDuringTest(t, utilfeature.DefaultMutableFeatureGate, koordfeatures.DisableDefaultQuota, false))
@@ -867,13 +867,12 @@ func c15CountCreates(u []c15Req) int {
 }
 
 type c15Explorer struct {
-	c      *kit.Case
-	cl     client.Client
-	pods   map[string]string
-	univ   []c15Req
-	stats  map[string]int
-	evals  int
-	maxLen int
+	c     *kit.Case
+	cl    client.Client
+	pods  map[string]string
+	univ  []c15Req
+	stats map[string]int
+	evals int
 }
 
 func (e *c15Explorer) replay(prefix []c15Req, logTo func(string, ...any)) *c15World {
